@@ -1260,12 +1260,14 @@ fn main() {
     let done = AtomicU64::new(0);
     let skipped = AtomicU64::new(0);
     let totals: Mutex<BTreeMap<&'static str, u64>> = Mutex::new(BTreeMap::new());
+    let times: Mutex<BTreeMap<String, u64>> = Mutex::new(BTreeMap::new());
     let workers = std::thread::available_parallelism().map(|x| x.get()).unwrap_or(4);
     std::thread::scope(|s| {
         for _ in 0..workers {
             s.spawn(|| {
                 let pool = one_thread_pool();
                 let mut local = Cnt::default();
+                let mut local_time: BTreeMap<String, u64> = BTreeMap::new();
                 loop {
                     let i = next.fetch_add(1, Ordering::Relaxed);
                     if i >= cases.len() {
@@ -1277,7 +1279,13 @@ fn main() {
                     }
                     let c = &cases[i];
                     let mut v = Vec::new();
+                    let t0 = std::time::Instant::now();
                     let cnt = pool.install(|| run_case(c, &mut v));
+                    let us = t0.elapsed().as_micros() as u64;
+                    {
+                        let key = format!("{} {} {} {}", c.kind, c.float, c.family, c.metric);
+                        *local_time.entry(key).or_insert(0) += us;
+                    }
                     ctx.evals(cnt.get("fits"), cnt.get("fits_nontrivial"));
                     if c.kind == "trajectory" {
                         ctx.add_states(cnt.get("ref_states"), cnt.get("ref_transitions"), cnt.get("trajectory_points_compared"));
@@ -1296,6 +1304,12 @@ fn main() {
                         json!({"kind": c.kind, "family": c.family, "data": c.data, "float": c.float, "metric": c.metric, "k": c.k, "tol": c.tol,
                                "init": c.init, "init_kind": c.init_kind, "seed": c.seed, "max_iter": c.max_iter, "budgets": c.budgets, "max_runs": c.max_runs})
                     });
+                }
+                {
+                    let mut tt = times.lock().unwrap();
+                    for (k, us) in local_time {
+                        *tt.entry(k).or_insert(0) += us;
+                    }
                 }
                 let mut t = totals.lock().unwrap();
                 for (k, n) in local.0 {
@@ -1322,5 +1336,7 @@ fn main() {
     for (k, n) in totals.lock().unwrap().iter() {
         ctx.extra(k, json!(n));
     }
+    let secs: BTreeMap<String, f64> = times.lock().unwrap().iter().map(|(k, us)| (k.clone(), (*us as f64 / 1e4).round() / 100.0)).collect();
+    ctx.extra("cpu_seconds_by_family", json!(secs));
     ctx.finish(&replay_value);
 }
